@@ -457,3 +457,15 @@ Proof.
   intros fuel b it H1 H2. cbv beta iota zeta delta [g_bitmapContainerIter_Next]. rewrite code_BitmapIter_Next by assumption.
   cbn [inner_next]. destruct (bnext (words b) it); reflexivity.
 Qed.
+
+(* ================================================================== RoaringBitmap.Add / Remove / Contains: the high / low split *)
+(* only the leading declarations  high := uint16(num >> 16); low := uint16(num)  are translated (TransSpec.Heads): the rest of the
+   three functions goes through listz.SkipList and the container interface *)
+Ltac head_crush :=
+  intros; open_code; unfold hi, lo; rewrite !land_ones16_Z, of_N_shiftr; reflexivity.
+Theorem code_Add_head : forall num, g_RoaringBitmap_Add_head (Z.of_N num) = Ret (Z.of_N (hi num), Z.of_N (lo num)).
+Proof. head_crush. Qed.
+Theorem code_Remove_head : forall num, g_RoaringBitmap_Remove_head (Z.of_N num) = Ret (Z.of_N (hi num), Z.of_N (lo num)).
+Proof. head_crush. Qed.
+Theorem code_Contains_head : forall num, g_RoaringBitmap_Contains_head (Z.of_N num) = Ret (Z.of_N (hi num), Z.of_N (lo num)).
+Proof. head_crush. Qed.
